@@ -5,7 +5,7 @@ from props.hm_common import *
 
 SETP = ['emp1,emp3;emp2,era1;con2,era3,emp1', 'emp2;era2,emp2;era2,con2', 'emp1,emp2,emp3;era2;era2;fnd2,con3', ';emp1,era1;emp1,con1;eog1',
         'emp1,emp2;fer1,emp1;era2,fnd1', 'emp2,emp3;emp1,era3;era2,emp3,con1']
-MAPP = ['emp1,emp2;era1,emp3,fnd2;goe1,idx4,con3', 'emp1;gol2,era1;eog2,idx1', ';goe1,era1;gol1,fnd1;idx1', 'emp1,emp2,emp3;fer2,goe2;era3,gol3,con2',
+MAPP = ['emp1,emp2;era1,emp3,fnd2;goe1,idx4,con3', 'emp1,emp2;era1,con2;era1,fnd2', 'emp1,emp2,emp3;era2,era3;era2,era1;con2', 'emp1;gol2,era1;eog2,idx1', ';goe1,era1;gol1,fnd1;idx1', 'emp1,emp2,emp3;fer2,goe2;era3,gol3,con2',
         'emp1,emp2;era1,era2;emp2,emp1,fnd1']
 
 
@@ -30,7 +30,7 @@ def run(ctx):
         for i in range(6 if q else 60):
             seq = ','.join('%s%d' % (rnd.choice(ops), rnd.randint(1, 5)) for _ in range(30))
             jobs.append('%s/%s;;%s' % (kind, rnd.choice(RECL), seq))
-    run_hm(ctx, jobs, pb=2 if q else 3, max_exec=250 if q else 20000)
+    run_hm(ctx, jobs, pb=2 if q else 3, max_exec=700 if q else 20000)
     if not q:
         run_hm(ctx, jobs, pb=5, max_exec=0, mode='random', runs=600, tagx='r')
     for r in ctx.tv[:3]:
